@@ -1483,6 +1483,11 @@ pub fn create_simple_plan(
     use crate::configure_walker;
     use regex::Regex;
 
+    // An empty pattern matches everywhere without consuming anything
+    if pattern.is_empty() {
+        return Err(anyhow::anyhow!("invalid pattern: the search pattern is empty"));
+    }
+
     let root = paths.first().cloned().unwrap_or_else(|| PathBuf::from("."));
     let paths = if paths.is_empty() {
         vec![PathBuf::from(".")]
